@@ -541,7 +541,12 @@ impl Mp4Track {
                             )?;
                         }
                         let duration = trun.sample_durations[sample_idx];
-                        return Ok((base_start_time + start_offset, duration));
+                        return base_start_time
+                            .checked_add(start_offset)
+                            .map(|start_time| (start_time, duration))
+                            .ok_or(Error::InvalidData(
+                                "attempt to calculate sample start time with overflow",
+                            ));
                     }
                 }
                 // Default durations: the run starts at the fragment's base decode time, so count
